@@ -50,13 +50,9 @@ theorem findTail_good (L : Lawful V) (f : Finder) (hm : Mem) (needle : Slice)
     (start end_ max cur : Nat) (c : Ctr) (G : Geom V f hm start end_ max) (hv : needle.Valid)
     (hgood : hm.base + needle.len ≤ end_) (h1 : max < cur) (h2 : cur ≤ max + V.bytes)
     (hno : NoHitIn f hm needle end_ start cur) :
-    ((cur = max + V.bytes ∧ needle.len ≤ end_ - cur) ∧
-      findTail V f hm needle start end_ max cur c =
-        .fault (.debugAssert "find: overlap < V::BYTES")) ∨
-    (¬ (cur = max + V.bytes ∧ needle.len ≤ end_ - cur) ∧
-      ∃ r c', findTail V f hm needle start end_ max cur c = .ok r c' ∧
-        FindRes f hm needle start end_ (max + V.bytes) r ∧
-        c'.steps ≤ c.steps + chunkCost V needle) := by
+    ∃ r c', findTail V f hm needle start end_ max cur c = .ok r c' ∧
+      FindRes f hm needle start end_ (max + V.bytes) r ∧
+      c'.steps ≤ c.steps + chunkCost V needle := by
   obtain ⟨hb, hsm, hme, he, hmin, hmin2⟩ := G
   have hlt : cur < end_ := by omega
   have hd := Mem.distance_ok hm "find: end.distance(cur)" end_ cur (by omega) (by omega) he
@@ -64,8 +60,7 @@ theorem findTail_good (L : Lawful V) (f : Finder) (hm : Mem) (needle : Slice)
   unfold findTail
   simp only [hlt, if_true, hd, pure_bind', dbgAssert_ok _ hda1]
   by_cases hrem : end_ - cur < needle.len
-  · right
-    refine ⟨by omega, none, c, by simp only [hrem, if_true, M.pure_run], ?_, Nat.le_add_right _ _⟩
+  · refine ⟨none, c, by simp only [hrem, if_true, M.pure_run], ?_, Nat.le_add_right _ _⟩
     intro a ha1 ha2 hh
     by_cases hac : a < cur
     · exact hno a ha1 hac hh
@@ -77,8 +72,7 @@ theorem findTail_good (L : Lawful V) (f : Finder) (hm : Mem) (needle : Slice)
     have hda3 : decide (cur - max > 0) = true := by simp; omega
     simp only [hrem, if_false, dbgAssert_ok _ hda2, pure_bind', hd2, dbgAssert_ok _ hda3]
     by_cases hov : cur - max < V.bytes
-    · right
-      refine ⟨by omega, ?_⟩
+    · have hge : ¬ cur - max ≥ V.bytes := by omega
       have hda4 : decide (cur - max < V.bytes) = true := by simp; omega
       obtain ⟨km, hkm, hprop⟩ := L.allExceptLS_spec (cur - max) c hov
       have hrep := MaskRep.movemask L (candF f hm max)
@@ -86,7 +80,7 @@ theorem findTail_good (L : Lawful V) (f : Finder) (hm : Mem) (needle : Slice)
       obtain ⟨r, c', hfc, hres, hcost⟩ := findInChunk_good L f hm needle max end_ km
         (fun i => L.bit (V.mand (V.movemask (bvec V.bytes (candF f hm max))) km) i) c hv
         (by omega) (by omega) he hgood ⟨w1, fun i _ => rfl⟩
-      simp only [dbgAssert_ok _ hda4, pure_bind']
+      simp only [hge, if_false, dbgAssert_ok _ hda4, pure_bind']
       rw [bind_ok hkm, bind_ok hfc]
       cases r with
       | some k =>
@@ -127,10 +121,10 @@ theorem findTail_good (L : Lawful V) (f : Finder) (hm : Mem) (needle : Slice)
             rw [← hj]; exact hh.1
           apply hres (a - max) (by omega) hg
           rw [← hj]; exact hh.2
-    · left
-      refine ⟨⟨by omega, by omega⟩, ?_⟩
-      have hda4 : decide (cur - max < V.bytes) = false := by simp; omega
-      simp only [hda4, dbgAssert_false, M.bind_run, fail_run]
+    · have hge : cur - max ≥ V.bytes := by omega
+      have hcur : cur = max + V.bytes := by omega
+      refine ⟨none, c, by simp only [hge, if_true, M.pure_run], ?_, Nat.le_add_right _ _⟩
+      rw [← hcur]; exact hno
 
 /-! ### the main loop -/
 
@@ -139,15 +133,9 @@ theorem findLoop_good (L : Lawful V) (f : Finder) (hm : Mem) (needle : Slice)
     (G : Geom V f hm start end_ max) (hv : needle.Valid)
     (hgood : hm.base + needle.len ≤ end_) (hall : IsAll L all)
     (h1 : start ≤ cur) (h2 : cur ≤ max + V.bytes) (hno : NoHitIn f hm needle end_ start cur) :
-    (∃ r c', findLoop V f hm needle start end_ max all cur c = .ok r c' ∧
+    ∃ r c', findLoop V f hm needle start end_ max all cur c = .ok r c' ∧
       FindRes f hm needle start end_ (max + V.bytes) r ∧
-      c'.steps ≤ c.steps + ((max + V.bytes - cur) / V.bytes + 1) * chunkCost V needle ∧
-      (r = none → ¬ ((max + V.bytes - cur) % V.bytes = 0 ∧
-        needle.len + V.bytes ≤ f.minHaystackLen))) ∨
-    (findLoop V f hm needle start end_ max all cur c =
-        .fault (.debugAssert "find: overlap < V::BYTES") ∧
-      (max + V.bytes - cur) % V.bytes = 0 ∧ needle.len + V.bytes ≤ f.minHaystackLen ∧
-      NoHitIn f hm needle end_ start (max + V.bytes)) := by
+      c'.steps ≤ c.steps + ((max + V.bytes - cur) / V.bytes + 1) * chunkCost V needle := by
   have hpos := V.bytes_pos
   fun_induction findLoop V f hm needle start end_ max all cur generalizing c with
   | case1 cur h ih =>
@@ -163,9 +151,8 @@ theorem findLoop_good (L : Lawful V) (f : Finder) (hm : Mem) (needle : Slice)
       rw [this, Nat.add_div_right _ hpos]
     cases r with
     | some k =>
-      left
       obtain ⟨a1, a2, a3, a4⟩ := hres
-      refine ⟨some (cur - start + k), c1, ?_, ?_, ?_, fun hh => by cases hh⟩
+      refine ⟨some (cur - start + k), c1, ?_, ?_, ?_⟩
       · show (matched hm start cur k >>= fun r => pure (some r)) c1 = _
         rw [bind_ok (matched_run hm start cur k c1 hb h1 (by omega))]
         rfl
@@ -197,45 +184,22 @@ theorem findLoop_good (L : Lawful V) (f : Finder) (hm : Mem) (needle : Slice)
             rw [← hj]; exact hh.1
           · rw [← hj]; exact hh.2
       have e1 : max + V.bytes - (cur + V.bytes) = max - cur := by omega
-      have e2 : max + V.bytes - cur = (max - cur) + V.bytes := by omega
-      have hmod : (max + V.bytes - cur) % V.bytes = (max - cur) % V.bytes := by
-        rw [e2, Nat.add_mod_right]
       simp only [hpa, pure_bind']
-      rcases ih c1 (by omega) (by omega) hno' with
-        ⟨r, c', hrun, hfr, hc', hD⟩ | ⟨hrun, hD1, hD2, hD3⟩
-      · left
-        refine ⟨r, c', hrun, hfr, ?_, ?_⟩
-        · rw [e1] at hc'
-          rw [hdiv]
-          have : ((max - cur) / V.bytes + 1 + 1) * chunkCost V needle =
-              ((max - cur) / V.bytes + 1) * chunkCost V needle + chunkCost V needle := by
-            rw [Nat.add_mul _ 1, Nat.one_mul]
-          omega
-        · rw [e1] at hD
-          rw [hmod]
-          exact hD
-      · right
-        rw [e1] at hD1
-        exact ⟨hrun, by rw [hmod]; exact hD1, hD2, hD3⟩
+      obtain ⟨r, c', hrun, hfr, hc'⟩ := ih c1 (by omega) (by omega) hno'
+      refine ⟨r, c', hrun, hfr, ?_⟩
+      rw [e1] at hc'
+      rw [hdiv]
+      have : ((max - cur) / V.bytes + 1 + 1) * chunkCost V needle =
+          ((max - cur) / V.bytes + 1) * chunkCost V needle + chunkCost V needle := by
+        rw [Nat.add_mul _ 1, Nat.one_mul]
+      omega
   | case2 cur h =>
     have hsmall : max + V.bytes - cur < V.bytes := by omega
     have hdiv : (max + V.bytes - cur) / V.bytes = 0 := Nat.div_eq_of_lt hsmall
-    have hmod : (max + V.bytes - cur) % V.bytes = max + V.bytes - cur := Nat.mod_eq_of_lt hsmall
-    have hme := G.hme
-    have hmin2 := G.hmin2
-    rcases findTail_good L f hm needle start end_ max cur c G hv hgood (by omega) h2 hno with
-      ⟨⟨hD1, hD2⟩, hrun⟩ | ⟨hD, r, c', hrun, hfr, hc'⟩
-    · right
-      refine ⟨hrun, by rw [hmod]; omega, by omega, ?_⟩
-      rw [← hD1]; exact hno
-    · left
-      refine ⟨r, c', hrun, hfr, ?_, ?_⟩
-      · rw [hdiv, Nat.zero_add, Nat.one_mul]; exact hc'
-      · intro _ hh
-        apply hD
-        rw [hmod] at hh
-        obtain ⟨hh1, hh2⟩ := hh
-        exact ⟨by omega, by omega⟩
+    obtain ⟨r, c', hrun, hfr, hc'⟩ := findTail_good L f hm needle start end_ max cur c G hv
+      hgood (by omega) h2 hno
+    refine ⟨r, c', hrun, hfr, ?_⟩
+    rw [hdiv, Nat.zero_add, Nat.one_mul]; exact hc'
 
 theorem findLoop_bad (L : Lawful V) (f : Finder) (hm : Mem) (needle : Slice)
     (start end_ max : Nat) (all : V.Mask) (cur : Nat) (c : Ctr)
